@@ -836,7 +836,9 @@ def _sequences(ctx, SPEC):
         fn = SS + "::SequencesHeader::parse_from_header"
         body = ctx.hir(fn)
         canon = hq.Canon(body)
-        m = T.find_match(body["body"], lambda s: H.show(hq.peel(s)) == "source[0]")
+        cforce = hq.Canon(body, force=True)
+        first_byte = lambda s: H.show(hq.peel(s)) == "source[0]" or cforce(s) in ("$0[0]", "$1[0]")     # directly or through a `let`
+        m = T.find_match(body["body"], first_byte)
         out = []
         for ranges, guard, abody, arm in T.arms(m):
             if ranges is None:
@@ -872,6 +874,8 @@ def _sequences(ctx, SPEC):
                 elif k == "Index" and H.show(hq.peel(n["e"])) == "source" and H.lit_val(n["idx"]) is not None:
                     b = "b%d" % H.lit_val(n["idx"])
                     aff[b] = aff.get(b, 0) + mult
+                elif k == "Local" and first_byte(n):
+                    aff["b0"] = aff.get("b0", 0) + mult
                 elif H.lit_val(n) is not None:
                     total_const += mult * H.lit_val(n)
                 else:
@@ -1029,6 +1033,8 @@ def _seq_arm_cases(canon, abody):
     `read` the sum added to the running byte count and `modes` the index of the byte stored as modes (or None).
     Returns None when the arm uses a shape this evaluator does not know."""
     def run(block, nonzero, st):
+        if block.get("k") != "Block":
+            block = {"k": "Block", "stmts": [], "expr": block}
         stmts = list(block.get("stmts") or [])
         if block.get("expr") is not None:
             stmts.append({"k": "ExprStmt", "e": block["expr"]})
@@ -1063,6 +1069,8 @@ def _seq_arm_cases(canon, abody):
                         return False
                 else:
                     return False
+            elif k == "Lit" and isinstance(H.lit_val(e), int) and not isinstance(H.lit_val(e), bool) and s_ is stmts[-1]:
+                st["read"] += H.lit_val(e)      # the arm's value is the number of bytes it consumed (`let n = match b0 { .. }`)
             elif k is None:
                 continue
             else:
